@@ -18,6 +18,10 @@
 //!      (unique or pooled), sized to force splitting and promotion; on read-back
 //!      every device offset must resolve to the table written for that exact
 //!      field (gposdev.rs).
+//!  (e) object SHARING across parents of different kinds x promotion / duplication:
+//!      abstract graphs with typed lookup nodes whose subtables are shared between
+//!      lookups of the same / of different lookup types, and real GSUB / GPOS tables with
+//!      byte-identical subtables under several lookups (shared.rs).
 //! Oracle: `spec::resolve` (graphs); GPOS: every input glyph is looked up through
 //! the output coverage tables, is covered by exactly one output subtable and
 //! reaches its own pair set / class record / anchors with every input value.
@@ -31,6 +35,7 @@
 pub mod big;
 pub mod gpos;
 pub mod gposdev;
+pub mod shared;
 pub mod spec;
 
 use serde_json::{json, Value};
@@ -57,13 +62,17 @@ pub fn run(ctx: &mut Ctx, _args: &Args) {
     ctx.assumptions = vec![
         "input graphs are acyclic and every object is reachable from the root (cyclic inputs are outside the property)".into(),
         "offset adjustments are only used on links to leaf objects and never exceed the parent's size (the public adjust_offsets contract: the adjustment in force is inherited by nested objects and a larger one makes the offset negative)".into(),
-        "mock objects carry TableType::Unknown, so splitting/promotion are exercised by the real GPOS workload only".into(),
+        "mock objects carry TableType::Unknown except the lookup nodes of the typed-graph workload (GsubLookup / GposLookup of non-splittable types, all under one lookup list), so splitting is exercised by the real GPOS workloads only, promotion by those and the typed graphs".into(),
     ];
     let _ = hooks::take_trace();
 
     // debugging aid: VF_C05_ONLY=gposdev runs only that workload
     if std::env::var("VF_C05_ONLY").map(|v| v == "gposdev").unwrap_or(false) {
         gposdev::run(ctx);
+        return;
+    }
+    if std::env::var("VF_C05_ONLY").map(|v| v == "shared").unwrap_or(false) {
+        shared::run(ctx);
         return;
     }
     let t0 = ctx.elapsed_s();
@@ -77,9 +86,11 @@ pub fn run(ctx: &mut Ctx, _args: &Args) {
     let t4 = ctx.elapsed_s();
     gposdev::run(ctx);
     let t5 = ctx.elapsed_s();
+    shared::run(ctx);
+    let t6 = ctx.elapsed_s();
     ctx.extra.insert(
         "workload_seconds_this_shard".into(),
-        json!({"exhaustive": t1 - t0, "random": t2 - t1, "big24": t3 - t2, "gpos": t4 - t3, "gposdev": t5 - t4}),
+        json!({"exhaustive": t1 - t0, "random": t2 - t1, "big24": t3 - t2, "gpos": t4 - t3, "gposdev": t5 - t4, "shared": t6 - t5}),
     );
 }
 
@@ -166,6 +177,23 @@ pub fn run_graph_case(ctx: &mut Ctx, spec: &Spec, workload: &str, case_id: &str)
                 }
                 if r.max_off32 > 0xffff || r.max_off24 > 0xffff {
                     ctx.count("success_with_wide_offset_above_65535", 1);
+                }
+                if r.lookups_promoted + r.lookups_not_promoted > 0 {
+                    ctx.count("typed:lookups_found_promoted", r.lookups_promoted as u64);
+                    ctx.count("typed:lookups_found_not_promoted", r.lookups_not_promoted as u64);
+                    ctx.count("typed:extension_records_resolved", r.extension_records as u64);
+                    if r.lookups_promoted > 0 {
+                        ctx.count("typed:success_with_promotion", 1);
+                    }
+                    if r.promoted_sharing_across_types > 0 {
+                        ctx.count("typed:success_with_subtable_shared_by_promoted_lookups_of_different_types", 1);
+                    }
+                    if r.shared_between_promoted_and_not {
+                        ctx.count("typed:success_with_subtable_shared_by_a_promoted_and_a_non_promoted_lookup", 1);
+                    }
+                    if r.lookups_promoted > 0 && r.duplicates > 0 {
+                        ctx.count("typed:success_with_promotion_and_duplication", 1);
+                    }
                 }
                 if beyond_kahn {
                     ctx.count("success_after_kahn_overflowed", 1);
@@ -702,6 +730,8 @@ fn replay(ctx: &mut Ctx, _args: &Args, rec: &Value, _bytes: Option<&[u8]>) {
         let id = d["case"].as_str().unwrap_or("replay").to_string();
         let out = run_graph_case(ctx, &spec, "replay", &id);
         eprintln!("replay {}: outcome={} trace={}", id, out.outcome, out.trace);
+    } else if d["recipe"]["kshared"].is_u64() {
+        shared::replay(ctx, &d["recipe"]);
     } else if d["recipe"]["kdev"].is_u64() {
         gposdev::replay(ctx, &d["recipe"]);
     } else if d["recipe"].is_object() {
